@@ -48,7 +48,7 @@ def prop_tree(v):
     if isinstance(v, str):
         return S(v)
     if isinstance(v, dict):
-        return M([(k, prop_tree(x)) for k, x in v.items()])
+        return M([(L.quote_key(k), prop_tree(x)) for k, x in v.items()])
     return Q([prop_tree(x) for x in v])
 
 
